@@ -36,6 +36,7 @@ fn dispatch(op: &str, req: &Value) -> Value {
         "layer-struct" => ops_layer::layer_struct(req),
         "writer" => ops_writer::run(req),
         "env-apply" => ops_env::apply(req),
+        "env-roundtrip" => ops_env::roundtrip(req),
         "dep-graph" => ops_graph::run(req),
         _ => json!({"error": format!("unknown op {op}")}),
     }
